@@ -27,7 +27,7 @@ def probe(d):
         return sid, "ok", res
     finally:
         sh("git -C /repo worktree remove --force %s" % wt); shutil.rmtree(wt + ".verif", ignore_errors=True)
-dirs = sorted(glob.glob("/verif/seeded/C*"))
+dirs = sorted(glob.glob("/verif/seeded/*C[0-9][0-9]-*"))
 os.makedirs("/tmp/seedwt", exist_ok=True)
 with ThreadPoolExecutor(max_workers=6) as ex:
     results = list(ex.map(probe, dirs))
